@@ -423,6 +423,8 @@ class LogixController:
                 c = self.choose("rfrag", f"rfrag@{name}:{off}", len(alts) + 1, 0)
                 if c:
                     fit = alts[c - 1]
+                if getattr(self, "force_rfrag", None):
+                    fit = min(fit, self.force_rfrag)  # a controller that hands out its data in small pieces
             if svc == 0x52:
                 self.rfrag_count += 1
                 if self.rfrag_count in self.empty_frag_at and rem:
